@@ -514,7 +514,7 @@ func c18Families(tier string) []explore.Family {
 		if r.WantSample() {
 			r.Sample(map[string]any{"template": t.src, "deviations": fmt.Sprint(c.devs), "observed": trunc80(o.String())})
 		}
-	}}, c18ExplicitFamily()}
+	}}, c18ExplicitFamily(), c18MadeFamily()}
 }
 
 // ---- second family: values that only SOME representations can hold, written out as explicit equivalence classes:
